@@ -500,7 +500,24 @@ fn gen_chars(rng: &mut Rng, n: usize, mix: u8) -> String {
     s
 }
 
+/// Long strings whose multi-byte characters straddle the usual cut-off lengths (2^k, 1000, 1024, ...).
+fn gen_long_boundary_string(rng: &mut Rng) -> String {
+    let edge = *rng.pick(&[16usize, 32, 64, 100, 128, 255, 256, 512, 1000, 1024, 1024, 2048]);
+    let lead = edge - 1 - rng.usize(4).min(edge - 1);
+    let mut s: String = std::iter::repeat(*rng.pick(ASCII) as char).take(lead).collect();
+    let wide = if rng.bool() { *rng.pick(BMP) } else { *rng.pick(ASTRAL) };
+    for _ in 0..2 + rng.usize(4) {
+        s.push(wide);
+    }
+    let tail = rng.usize(20);
+    s.push_str(&gen_chars(rng, tail, 0));
+    s
+}
+
 fn gen_string(rng: &mut Rng) -> String {
+    if rng.chance(1, 80) {
+        return gen_long_boundary_string(rng);
+    }
     match rng.below(12) {
         0 => String::new(),
         1..=4 => {
